@@ -1,7 +1,8 @@
-(* C01 - Invoice totals: structure of the calculation and, under the 'precise' rule, the distance
-   of presented totals from the exact value.
-   Property theorems only; every proof is `exact <lemma>` from Calc/BoundProofs.v (or reflexivity
-   for the model's constants).  The statements are about the calculation model Calc/Calc.v, tied to
+(* C01 - Invoice totals: every calculated figure equals a declarative specification over the
+   rationals (Calc/Ideal.v) for EVERY document, and, under the 'precise' rule, the distance of the
+   presented totals from the unrounded exact value.
+   Property theorems only; every proof is `exact <lemma>` from Calc/IdealProofs.v,
+   Calc/IdealBoundProofs.v, Calc/BoundProofs.v (or reflexivity for the model's constants).  The statements are about the calculation model Calc/Calc.v, tied to
    bill/calculator.go, bill/line_calculate.go by the differential check tools/props/c01.py.
    toQ a is the rational an amount denotes, roundQ e q is q rounded half away from zero to e
    decimals, unitQ e = 10^-e (one unit of the e-th decimal; unitQ c is one minor currency unit). *)
@@ -114,7 +115,8 @@ Print Assumptions currency_line_sum_single_rounding_refuted.
 
 (* plain_line l: no breakdown, no line discounts / charges, no taxes, item priced in the document
    currency.  line_price c l: the price raised to at least c + 2 decimals (value unchanged).
-   Partial: lines with sub-lines, discounts, charges or a currency conversion are not covered. *)
+   Partial: lines with sub-lines, discounts, charges or a currency conversion are not covered by
+   THIS statement; line_figures_are_ideal above covers every line. *)
 Theorem line_sum_is_rounded_product_partial c cur rates l : plain_line l ->
   exists lc, calc_line false c cur rates l = Some lc /\
     let e := exp (line_price c l) in
